@@ -28,8 +28,8 @@ PROP = dict(
     ],
     jobs=dict(
         quick=[
-            job("routing", "^TestVerifC19FindPath$", ["TestVerifC19FindPath"], 6000, shards=6),
-            job("routing", "^TestVerifC19RequestRoute$", ["TestVerifC19RequestRoute"], 1500, shards=2),
+            job("routing", "^TestVerifC19FindPath$", ["TestVerifC19FindPath"], 12000, shards=6),
+            job("routing", "^TestVerifC19RequestRoute$", ["TestVerifC19RequestRoute"], 3000, shards=2),
         ],
         thorough=[
             job("routing", "^TestVerifC19FindPath$", ["TestVerifC19FindPath"], 30000, shards=12,
